@@ -2,7 +2,7 @@
 # final pass over the seeds of one round: tools/seed_final_r.sh <prefix> <loop id> <ids...>
 pre="$1"; export LOOP="$2"; shift 2
 for id in "$@"; do
-  for n in 1 2 3; do
+  for n in 1 2 3 4; do
     d=/verif/seeded/$pre$id-$n
     [ -d "$d" ] || continue
     [ -f "$d/final.done" ] && continue
